@@ -571,16 +571,19 @@ where
     type Item = &'item T;
 
     fn next(&mut self) -> Option<Self::Item> {
-        if let item @ Some(_) = self.current_section.next() {
-            return item;
-        }
+        loop {
+            if let item @ Some(_) = self.current_section.next() {
+                return item;
+            }
 
-        if let Some(next_section) = self.subsequent_sections.next() {
-            self.current_section = next_section.iter();
-            return self.next();
-        }
+            // Loop instead of recursing, as there may be arbitrarily many
+            // empty sections in a row (e.g. arrays of length 0).
 
-        None
+            match self.subsequent_sections.next() {
+                Some(next_section) => self.current_section = next_section.iter(),
+                None => return None
+            }
+        }
     }
 
     fn size_hint(&self) -> (usize, Option<usize>) {
